@@ -2659,4 +2659,516 @@ theorem py_numpy_forms :
       ("inverse", "try:     inverse = np.linalg.inv(self._matrix.reshape(4, 4)) except np.linalg.LinAlgError:     raise ZeroDivisionError; self._matrix = np.ravel(inverse)")] := by
   decide +kernel
 
+/-! ## 23. Growth round 2: batch forms of OCS, exact bands of the frame predicates -/
+
+/-- `OCS.points_to_wcs` / `points_from_wcs` are the maps of the single-point conversions (pass-through OCS included),
+    both linkings; hence mutually inverse lists for an orthonormal OCS matrix -/
+theorem ocs_points_spec (t : Bool) (m : M44) (ps : List V3) :
+    UcsPyx.ocsPointsToWcs t m ps = ps.map (UcsPyx.ocsToWcs t m)
+    ∧ UcsPyx.ocsPointsFromWcs t m ps = ps.map (UcsPyx.ocsFromWcs t m)
+    ∧ UcsPy.ocsPointsToWcs t m ps = ps.map (UcsPy.ocsToWcs t m)
+    ∧ UcsPy.ocsPointsFromWcs t m ps = ps.map (UcsPy.ocsFromWcs t m)
+    ∧ (Orthonormal m → UcsPyx.ocsPointsToWcs t m (UcsPyx.ocsPointsFromWcs t m ps) = ps
+        ∧ UcsPyx.ocsPointsFromWcs t m (UcsPyx.ocsPointsToWcs t m ps) = ps) := by
+  have eta : ∀ qs : List V3, qs.map (fun e : V3 => (⟨e.x, e.y, e.z⟩ : V3)) = qs := by
+    intro qs; induction qs with
+    | nil => rfl
+    | cons q rest ih => simp only [List.map_cons, ih]
+  have h1 : UcsPyx.ocsPointsToWcs t m ps = ps.map (UcsPyx.ocsToWcs t m) := by
+    cases t <;> exact List.map_congr_left (fun p _ => rfl)
+  have h2 : UcsPyx.ocsPointsFromWcs t m ps = ps.map (UcsPyx.ocsFromWcs t m) := by
+    cases t <;> exact List.map_congr_left (fun p _ => rfl)
+  refine ⟨h1, h2, ?_, ?_, ?_⟩
+  · cases t <;> exact List.map_congr_left (fun p _ => rfl)
+  · cases t <;> exact List.map_congr_left (fun p _ => rfl)
+  · intro ho
+    have key := fun p => ocs_roundtrip t m ho p
+    constructor
+    · have h1' : ∀ qs : List V3, UcsPyx.ocsPointsToWcs t m qs = qs.map (UcsPyx.ocsToWcs t m) := by
+        intro qs; cases t <;> exact List.map_congr_left (fun p _ => rfl)
+      rw [h2, h1', List.map_map]
+      conv_rhs => rw [← List.map_id ps]
+      apply List.map_congr_left
+      intro p _
+      exact (key p).1
+    · have h2' : ∀ qs : List V3, UcsPyx.ocsPointsFromWcs t m qs = qs.map (UcsPyx.ocsFromWcs t m) := by
+        intro qs; cases t <;> exact List.map_congr_left (fun p _ => rfl)
+      rw [h1, h2', List.map_map]
+      conv_rhs => rw [← List.map_id ps]
+      apply List.map_congr_left
+      intro p _
+      exact (key p).2.1
+
+private theorem dot_norm' (a b c d e f s t : Rat) :
+    a * (1 / s) * (b * (1 / t)) + c * (1 / s) * (d * (1 / t)) + e * (1 / s) * (f * (1 / t))
+      = (a * b + c * d + e * f) * ((1 / s) * (1 / t)) := by ring
+
+/-- EXACT band of `is_orthogonal`: with r1, r2, r3 the lengths of the three axis rows it answers True exactly when each of
+    the three normalised dot products is within 1e-9 (the double nearest to it) in absolute value - so one pair of axes
+    with a larger normalised dot product makes it False -/
+theorem is_orthogonal_band (m : M44) (r1 r2 r3 : Rat) (n1 : r1 ≠ 0) (n2 : r2 ≠ 0) (n3 : r3 ≠ 0) :
+    Matrix44Pyx.isOrthogonal m r1 r2 r3 = .ok
+      ((decide (pyAbs (V3.dot m.ux m.uy * ((1 / r1) * (1 / r2))) ≤ (4835703278458517 : Rat) / 4835703278458516698824704)
+        && decide (pyAbs (V3.dot m.ux m.uz * ((1 / r1) * (1 / r3))) ≤ (4835703278458517 : Rat) / 4835703278458516698824704))
+        && decide (pyAbs (V3.dot m.uy m.uz * ((1 / r2) * (1 / r3))) ≤ (4835703278458517 : Rat) / 4835703278458516698824704))
+    ∧ Matrix44Py.isOrthogonal m r1 r2 r3 = Matrix44Pyx.isOrthogonal m r1 r2 r3
+    ∧ ((4835703278458517 : Rat) / 4835703278458516698824704 < pyAbs (V3.dot m.ux m.uy * ((1 / r1) * (1 / r2))) →
+        Matrix44Pyx.isOrthogonal m r1 r2 r3 = .ok false) := by
+  have h : Matrix44Pyx.isOrthogonal m r1 r2 r3 = .ok
+      ((decide (pyAbs (V3.dot m.ux m.uy * ((1 / r1) * (1 / r2))) ≤ (4835703278458517 : Rat) / 4835703278458516698824704)
+        && decide (pyAbs (V3.dot m.ux m.uz * ((1 / r1) * (1 / r3))) ≤ (4835703278458517 : Rat) / 4835703278458516698824704))
+        && decide (pyAbs (V3.dot m.uy m.uz * ((1 / r2) * (1 / r3))) ≤ (4835703278458517 : Rat) / 4835703278458516698824704)) := by
+    simp only [Matrix44Pyx.isOrthogonal, if_neg n1, if_neg n2, if_neg n3, dot_norm', V3.dot, M44.ux, M44.uy, M44.uz]
+    rfl
+  refine ⟨h, rfl, ?_⟩
+  intro hgt
+  rw [h]
+  have : ¬ (pyAbs (V3.dot m.ux m.uy * ((1 / r1) * (1 / r2))) ≤ (4835703278458517 : Rat) / 4835703278458516698824704) := not_le.mpr hgt
+  rw [decide_eq_false this, Bool.false_and, Bool.false_and]
+
+/-- negative direction of `is_cartesian`: a LEFT-handed orthonormal frame (ux × uy = −uz) answers False -/
+theorem is_cartesian_left_handed (m : M44) (hr : IsRigid m) (hl : V3.cross m.ux m.uy = V3.smul (-1) m.uz) :
+    Matrix44Pyx.isCartesian m 1 1 = .ok false := by
+  obtain ⟨_, hxx, hyy, hzz, hxy, hxz, hyz⟩ := hr
+  simp only [V3.dot, V3.cross, V3.smul, M44.ux, M44.uy, M44.uz, V3.mk.injEq] at hxx hyy hzz hxy hxz hyz hl
+  obtain ⟨h8, h9, h10⟩ := hl
+  have e8 : m.m8 = -(m.m1 * m.m6 - m.m2 * m.m5) := by linarith
+  have e9 : m.m9 = -(m.m2 * m.m4 - m.m0 * m.m6) := by linarith
+  have e10 : m.m10 = -(m.m0 * m.m5 - m.m1 * m.m4) := by linarith
+  have ex : m.m5 * m.m10 - m.m6 * m.m9 = -m.m0 := by
+    rw [e10, e9]; linear_combination (-m.m0) * hyy + (m.m4) * hxy
+  have ey : m.m6 * m.m8 - m.m4 * m.m10 = -m.m1 := by
+    rw [e10, e8]; linear_combination (-m.m1) * hyy + (m.m5) * hxy
+  have ez : m.m4 * m.m9 - m.m5 * m.m8 = -m.m2 := by
+    rw [e9, e8]; linear_combination (-m.m2) * hyy + (m.m6) * hxy
+  simp only [Matrix44Pyx.isCartesian, if_neg (one_ne_zero), ex, ey, ez, Except.ok.injEq]
+  -- some component of the unit vector ux has |u| ≥ 1/2; there the comparison of u with −u fails
+  by_contra hne
+  have htrue : ∀ u : Rat,
+      (((decide (pyAbs (u * (1 / 1) - -u * (1 / 1)) ≤ pyAbs ((4835703278458517 : Rat) / 4835703278458516698824704 * (u * (1 / 1))))
+        || decide (pyAbs (u * (1 / 1) - -u * (1 / 1)) ≤ pyAbs ((4835703278458517 : Rat) / 4835703278458516698824704 * (-u * (1 / 1)))))
+        || decide (pyAbs (u * (1 / 1) - -u * (1 / 1)) ≤ (4951760157141521 : Rat) / 4951760157141521099596496896)) = true)
+      → u * u ≤ 1 / 1000000 := by
+    intro u hu
+    simp only [Bool.or_eq_true, decide_eq_true_eq, mul_one, div_one] at hu
+    have habs : ∀ x : Rat, pyAbs x = |x| := by intro x; unfold pyAbs; split <;> [exact (abs_of_nonneg ‹_›).symm; exact (abs_of_neg (lt_of_not_ge ‹_›)).symm]
+    simp only [habs, sub_neg_eq_add, abs_mul, abs_neg] at hu
+    have h2 : |u + u| = 2 * |u| := by rw [← two_mul, abs_mul]; norm_num
+    rw [h2] at hu
+    have hk : |(4835703278458517 : Rat) / 4835703278458516698824704| = (4835703278458517 : Rat) / 4835703278458516698824704 := abs_of_pos (by norm_num)
+    rw [hk] at hu
+    have hu0 := abs_nonneg u
+    have hsmall : |u| ≤ 1 / 1000 := by
+      rcases hu with (h | h) | h <;> nlinarith
+    have : u * u = |u| * |u| := (abs_mul_abs_self u).symm
+    rw [this]; nlinarith
+  rw [Bool.not_eq_false] at hne
+  simp only [Bool.and_eq_true] at hne
+  obtain ⟨⟨a1, a2⟩, a3⟩ := hne
+  have b1 := htrue m.m0 a1
+  have b2 := htrue m.m1 a2
+  have b3 := htrue m.m2 a3
+  nlinarith
+
+example : Matrix44Pyx.isCartesian ⟨1, 0, 0, 0, 0, 1, 0, 0, 0, 0, -1, 0, 0, 0, 0, 1⟩ 1 1 = .ok false := by decide +kernel
+
+/-! ## 24. Growth round 2: angle_between clamping, rotate, project, consistency of ==/isclose, perspective -/
+
+private theorem clamp_ind {P : Except PyErr Rat → Prop} (x : Rat)
+    (h1 : x < -1 → P (.ok (-1))) (h2 : ¬ x < -1 → 1 < x → P (.ok 1)) (h3 : ¬ x < -1 → ¬ 1 < x → P (.ok x)) :
+    P (if x < (-1 : Rat) then .ok (-1 : Rat) else if 1 < x then .ok 1 else .ok x) := by
+  by_cases a : x < -1
+  · rw [if_pos a]; exact h1 a
+  · rw [if_neg a]
+    by_cases b : 1 < x
+    · rw [if_pos b]; exact h2 a b
+    · rw [if_neg b]; exact h3 a b
+
+/-- `angle_between` up to the call of acos (the kernel is translated with acos returning its ARGUMENT): a null operand
+    raises ZeroDivisionError; otherwise the value handed to acos is the normalised dot product clamped into [−1, 1];
+    with the exact lengths r1 = |a|, r2 = |b| the clamp is never active (Cauchy–Schwarz) - it only absorbs float noise -,
+    the value is symmetric in a and b, and it is exactly 1 for b = k·a, k > 0 -/
+theorem angle_between_spec (a b : V3) (r1 r2 : Rat) :
+    ((r1 = 0 ∨ r2 = 0) → VectorPyx.v3cosBetween a b r1 r2 = .error .zeroDivision)
+    ∧ (r1 ≠ 0 → r2 ≠ 0 → ∃ c, VectorPyx.v3cosBetween a b r1 r2 = .ok c ∧ VectorPy.v3cosBetween a b r1 r2 = .ok c
+        ∧ -1 ≤ c ∧ c ≤ 1
+        ∧ (0 < r1 → 0 < r2 → r1 * r1 = V3.dot a a → r2 * r2 = V3.dot b b →
+            c = V3.dot a b * ((1 / r1) * (1 / r2)) ∧ VectorPyx.v3cosBetween b a r2 r1 = .ok c)) := by
+  constructor
+  · rintro (h | h)
+    · simp [VectorPyx.v3cosBetween, h]
+    · by_cases h1 : r1 = 0 <;> simp [VectorPyx.v3cosBetween, h, h1]
+  · intro n1 n2
+    have hpy : VectorPy.v3cosBetween a b r1 r2 = VectorPyx.v3cosBetween a b r1 r2 := rfl
+    rw [hpy]
+    simp only [VectorPyx.v3cosBetween, if_neg n1, if_neg n2, if_neg n2, if_neg n1]
+    have hx : a.x * (1 / r1) * (b.x * (1 / r2)) + a.y * (1 / r1) * (b.y * (1 / r2)) + a.z * (1 / r1) * (b.z * (1 / r2))
+        = V3.dot a b * ((1 / r1) * (1 / r2)) := by simp only [V3.dot]; ring
+    have hy : b.x * (1 / r2) * (a.x * (1 / r1)) + b.y * (1 / r2) * (a.y * (1 / r1)) + b.z * (1 / r2) * (a.z * (1 / r1))
+        = V3.dot a b * ((1 / r1) * (1 / r2)) := by simp only [V3.dot]; ring
+    rw [hx, hy]
+    have hL : V3.dot a b * V3.dot a b ≤ V3.dot a a * V3.dot b b := by
+      simp only [V3.dot]
+      nlinarith [sq_nonneg (a.x * b.y - a.y * b.x), sq_nonneg (a.y * b.z - a.z * b.y), sq_nonneg (a.z * b.x - a.x * b.z)]
+    have hsq : 0 < r1 → 0 < r2 → r1 * r1 = V3.dot a a → r2 * r2 = V3.dot b b →
+        (V3.dot a b * ((1 / r1) * (1 / r2))) * (V3.dot a b * ((1 / r1) * (1 / r2))) ≤ 1 := by
+      intro p1 p2 e1 e2
+      have hpos : 0 < r1 * r1 * (r2 * r2) := by positivity
+      have : (V3.dot a b * ((1 / r1) * (1 / r2))) * (V3.dot a b * ((1 / r1) * (1 / r2))) * (r1 * r1 * (r2 * r2))
+          = V3.dot a b * V3.dot a b := by field_simp
+      rw [← e1, ← e2] at hL
+      by_contra hgt
+      rw [not_le] at hgt
+      nlinarith
+    generalize V3.dot a b * ((1 / r1) * (1 / r2)) = x at hsq ⊢
+    by_cases c1 : x < -1
+    · rw [if_pos c1]
+      refine ⟨-1, rfl, rfl, le_refl _, by norm_num, ?_⟩
+      intro p1 p2 e1 e2
+      have := hsq p1 p2 e1 e2
+      exfalso; nlinarith
+    · rw [if_neg c1]
+      by_cases c2 : 1 < x
+      · rw [if_pos c2]
+        refine ⟨1, rfl, rfl, by norm_num, le_refl _, ?_⟩
+        intro p1 p2 e1 e2
+        have := hsq p1 p2 e1 e2
+        exfalso; nlinarith
+      · rw [if_neg c2]
+        exact ⟨x, rfl, rfl, le_of_not_gt c1, le_of_not_gt c2, fun _ _ _ _ => ⟨rfl, rfl⟩⟩
+
+/-- `rotate(θ)` about the z-axis (implemented as from_angle(atan2(y, x) + θ, hypot(x, y)); atan2 enters through its
+    defining identities cos = x/r, sin = y/r, atan2(0,0) = 0): for EVERY vector (r = hypot(x, y), the null xy-part
+    included) it is the rotation (x c − y s, x s + y c, z); it keeps the length when c² + s² = 1; Vec2 likewise;
+    `rotate_deg` (Python twin) is the same function of the converted angle -/
+theorem rotate_spec (a : V3) (p : V2) (c s r : Rat) (h0 : 0 ≤ r) :
+    (r * r = VectorPyx.v3rotate_rad1 a c s →
+      VectorPyx.v3rotate a c s r = ⟨a.x * c - a.y * s, a.x * s + a.y * c, a.z⟩
+      ∧ VectorPy.v3rotate a c s r = VectorPyx.v3rotate a c s r ∧ VectorPy.v3rotateDeg a c s r = VectorPyx.v3rotate a c s r
+      ∧ (c * c + s * s = 1 → VectorPyx.v3magsq (VectorPyx.v3rotate a c s r) = VectorPyx.v3magsq a))
+    ∧ (r * r = VectorPyx.v2rotate_rad1 p c s →
+      VectorPyx.v2rotate p c s r = ⟨p.x * c - p.y * s, p.x * s + p.y * c⟩
+      ∧ VectorPy.v2rotate p c s r = VectorPyx.v2rotate p c s r ∧ VectorPy.v2rotateDeg p c s r = VectorPyx.v2rotate p c s r) := by
+  constructor
+  · intro hr
+    simp only [VectorPyx.v3rotate_rad1] at hr
+    have h1 : VectorPyx.v3rotate a c s r = ⟨a.x * c - a.y * s, a.x * s + a.y * c, a.z⟩ := by
+      simp only [VectorPyx.v3rotate, V3.mk.injEq]
+      by_cases hz : r = 0
+      · have hx : a.x = 0 := by rw [hz] at hr; nlinarith [mul_self_nonneg a.x, mul_self_nonneg a.y]
+        have hy : a.y = 0 := by rw [hz] at hr; nlinarith [mul_self_nonneg a.x, mul_self_nonneg a.y]
+        simp [hz, hx, hy]
+      · simp only [if_neg hz]
+        refine ⟨?_, ?_, trivial⟩ <;> (field_simp <;> try ring)
+    refine ⟨h1, rfl, rfl, ?_⟩
+    intro hcs
+    rw [h1]
+    simp only [VectorPyx.v3magsq]
+    linear_combination (a.x * a.x + a.y * a.y) * hcs
+  · intro hr
+    simp only [VectorPyx.v2rotate_rad1] at hr
+    refine ⟨?_, rfl, rfl⟩
+    simp only [VectorPyx.v2rotate, V2.mk.injEq]
+    by_cases hz : r = 0
+    · have hx : p.x = 0 := by rw [hz] at hr; nlinarith [mul_self_nonneg p.x, mul_self_nonneg p.y]
+      have hy : p.y = 0 := by rw [hz] at hr; nlinarith [mul_self_nonneg p.x, mul_self_nonneg p.y]
+      simp [hz, hx, hy]
+    · simp only [if_neg hz]
+      refine ⟨?_, ?_⟩ <;> (field_simp <;> try ring)
+
+/-- `project` is idempotent, `==` implies `isclose` (any tolerances), both twins -/
+theorem project_idempotent (a b : V3) (r : Rat) (hr : r * r = VectorPyx.v3project_rad1 a b) (h0 : r ≠ 0) :
+    ∃ p, VectorPyx.v3project a b r = .ok p ∧ VectorPyx.v3project a p r = .ok p
+      ∧ (∀ rel ab : Rat, VectorPyx.v3eq a b = true → VectorPyx.v3isclose2 a b rel ab = true ∧ VectorPyx.v3isclose a b = true
+          ∧ VectorPy.v3isclose a b = true) := by
+  obtain ⟨p, hp, _, _, _⟩ := project_spec a b r hr h0
+  simp only [VectorPyx.v3project_rad1] at hr
+  refine ⟨p, hp, ?_, ?_⟩
+  · have hu : a.x * (1 / r) * (a.x * (1 / r)) + a.y * (1 / r) * (a.y * (1 / r)) + a.z * (1 / r) * (a.z * (1 / r)) = 1 := by
+      field_simp; linarith
+    simp only [VectorPyx.v3project, if_neg h0, Except.ok.injEq] at hp ⊢
+    subst hp
+    generalize a.x * (1 / r) = ux at hu ⊢
+    generalize a.y * (1 / r) = uy at hu ⊢
+    generalize a.z * (1 / r) = uz at hu ⊢
+    simp only [V3.mk.injEq]
+    refine ⟨?_, ?_, ?_⟩
+    · linear_combination (ux * (ux * b.x + uy * b.y + uz * b.z)) * hu
+    · linear_combination (uy * (ux * b.x + uy * b.y + uz * b.z)) * hu
+    · linear_combination (uz * (ux * b.x + uy * b.y + uz * b.z)) * hu
+  · intro rel ab he
+    have hab : a = b := ((eq_spec a b ⟨0, 0⟩ ⟨0, 0⟩ (fun t => t)).1).1 he
+    subst hab
+    obtain ⟨i1, _, i3, _, i5, _⟩ := isclose_laws a a ⟨0, 0⟩ ⟨0, 0⟩ rel ab
+    exact ⟨i1, i3, i5⟩
+
+/-- `perspective_projection(left, right, top, bottom, near, far)`: ZeroDivisionError exactly when right = left or
+    top = bottom or far = near; otherwise the OpenGL frustum matrix (row-vector form), whose last column is (0, 0, −1, 0):
+    NOT affine - `transform` ignores that column, the perspective division is left to the caller; both twins -/
+theorem perspective_spec (l r t b n f : Rat) :
+    ((r - l = 0 ∨ t - b = 0 ∨ f - n = 0) → Matrix44Pyx.perspective l r t b n f = .error .zeroDivision)
+    ∧ (r - l ≠ 0 → t - b ≠ 0 → f - n ≠ 0 →
+        Matrix44Pyx.perspective l r t b n f = .ok ⟨2 * n / (r - l), 0, 0, 0, 0, 2 * n / (t - b), 0, 0,
+          (r + l) / (r - l), (t + b) / (t - b), -((f + n) / (f - n)), -1, 0, 0, -(2 * f * n / (f - n)), 0⟩
+        ∧ ¬ M44.IsAffine ⟨2 * n / (r - l), 0, 0, 0, 0, 2 * n / (t - b), 0, 0,
+          (r + l) / (r - l), (t + b) / (t - b), -((f + n) / (f - n)), -1, 0, 0, -(2 * f * n / (f - n)), 0⟩)
+    ∧ Matrix44Py.perspective = Matrix44Pyx.perspective := by
+  refine ⟨?_, ?_, rfl⟩
+  · rintro (h | h | h)
+    · simp [Matrix44Pyx.perspective, h]
+    · by_cases h1 : r - l = 0 <;> simp [Matrix44Pyx.perspective, h, h1]
+    · by_cases h1 : r - l = 0 <;> by_cases h2 : t - b = 0 <;> simp [Matrix44Pyx.perspective, h, h1, h2]
+  · intro h1 h2 h3
+    refine ⟨by simp only [Matrix44Pyx.perspective, if_neg h1, if_neg h2, if_neg h3], ?_⟩
+    simp [M44.IsAffine]
+
+/-! ## 25. Growth round 2: `rotate_local_z` in closed form, compositions, `to_ocs_angle_*` -/
+
+private theorem m44_ext_rows (a b : M44) (ha : M44.IsAffine a) (hb : M44.IsAffine b)
+    (hx : a.ux = b.ux) (hy : a.uy = b.uy) (hz : a.uz = b.uz) (ho : a.origin = b.origin) : a = b := by
+  obtain ⟨a3, a7, a11, a15⟩ := ha
+  obtain ⟨b3, b7, b11, b15⟩ := hb
+  cases a; cases b
+  simp only [M44.ux, M44.uy, M44.uz, M44.origin, V3.mk.injEq] at hx hy hz ho
+  simp only at a3 a7 a11 a15 b3 b7 b11 b15
+  simp only [M44.mk.injEq]
+  refine ⟨hx.1, hx.2.1, hx.2.2, by rw [a3, b3], hy.1, hy.2.1, hy.2.2, by rw [a7, b7], hz.1, hz.2.1, hz.2.2, by rw [a11, b11],
+    ho.1, ho.2.1, ho.2.2, by rw [a15, b15]⟩
+
+/-- `rotate_local_z(θ)` of a right-handed cartesian UCS in closed form: ux' = cos θ·ux + sin θ·uy,
+    uy' = −sin θ·ux + cos θ·uy, uz and the origin are kept; the result is again right-handed cartesian -/
+theorem ucs_rotate_local_z_formula (s : M44) (c sn : Rat) (hs : IsRigid s) (hdet : M44.det s = 1)
+    (hcs : c * c + sn * sn = 1) :
+    ∃ m, UcsPyx.ucsRotateLocalZ s c sn 1 1 1 = .ok m ∧ UcsPy.ucsRotateLocalZ s c sn 1 1 1 = .ok m
+      ∧ m.ux = V3.add (V3.smul c s.ux) (V3.smul sn s.uy) ∧ m.uy = V3.add (V3.smul (-sn) s.ux) (V3.smul c s.uy)
+      ∧ m.uz = s.uz ∧ m.origin = s.origin ∧ IsRigid m ∧ M44.det m = 1 := by
+  obtain ⟨hzz, R, m, hR, _, _, hm, hm', ho, huz, hux, huy, hrig, hd⟩ := (ucs_rotate_cartesian s s.uz c sn 1 hs hcs).2
+  have one : (1 : Rat) ≠ 0 := one_ne_zero
+  obtain ⟨R', hR', _, _, hRa, _, hrod⟩ := axis_rotate_spec s.uz c sn 1 hcs (by rw [hzz]; ring) one
+  rw [hR] at hR'; cases hR'
+  have hrh : V3.cross s.ux s.uy = s.uz := by
+    rw [(rigid_handedness s hs).1, hdet]; cases s; simp [V3.smul, M44.uz]
+  obtain ⟨⟨h3, h7, h11, h15⟩, hxx, hyy, hzz', hxy, hxz, hyz⟩ := hs
+  have h0 : R.m12 = 0 ∧ R.m13 = 0 ∧ R.m14 = 0 := by
+    have hRe := hR
+    simp only [Matrix44Pyx.axisRotate, if_neg one, Except.ok.injEq] at hRe
+    rw [← hRe]; exact ⟨rfl, rfl, rfl⟩
+  have rowx : (M44.mul s R).ux = Matrix44Pyx.transform R s.ux := by
+    simp only [M44.mul, M44.ux, Matrix44Pyx.transform, V3.mk.injEq, h3, h0.1, h0.2.1, h0.2.2]
+    refine ⟨?_, ?_, ?_⟩ <;> ring
+  have rowy : (M44.mul s R).uy = Matrix44Pyx.transform R s.uy := by
+    simp only [M44.mul, M44.uy, Matrix44Pyx.transform, V3.mk.injEq, h7, h0.1, h0.2.1, h0.2.2]
+    refine ⟨?_, ?_, ?_⟩ <;> ring
+  simp only [V3.dot, V3.cross, M44.ux, M44.uy, M44.uz, V3.mk.injEq] at hxx hyy hzz' hxy hxz hyz hrh
+  obtain ⟨r8, r9, r10⟩ := hrh
+  refine ⟨m, hm, hm', ?_, ?_, huz, ho, hrig, by rw [hd, hdet]⟩
+  · rw [hux, rowx, hrod]
+    simp only [V3.add, V3.smul, V3.cross, V3.dot, M44.ux, M44.uy, M44.uz, V3.mk.injEq, ← r8, ← r9, ← r10]
+    refine ⟨?_, ?_, ?_⟩
+    · linear_combination (sn * s.m4) * hxx - (sn * s.m0) * hxy
+    · linear_combination (sn * s.m5) * hxx - (sn * s.m1) * hxy
+    · linear_combination (sn * s.m6) * hxx - (sn * s.m2) * hxy
+  · rw [huy, rowy, hrod]
+    simp only [V3.add, V3.smul, V3.cross, V3.dot, M44.ux, M44.uy, M44.uz, V3.mk.injEq, ← r8, ← r9, ← r10]
+    refine ⟨?_, ?_, ?_⟩
+    · linear_combination (-(sn * s.m0)) * hyy + (sn * s.m4) * hxy
+    · linear_combination (-(sn * s.m1)) * hyy + (sn * s.m5) * hxy
+    · linear_combination (-(sn * s.m2)) * hyy + (sn * s.m6) * hxy
+
+
+/-- COMPOSITION: `ucs.rotate_local_z(α).rotate_local_z(β)` = `ucs.rotate_local_z(α + β)` (cos/sin of the sum by the
+    addition theorems), for every right-handed cartesian UCS -/
+theorem ucs_rotate_local_z_compose (s : M44) (c1 s1 c2 s2 : Rat) (hs : IsRigid s) (hdet : M44.det s = 1)
+    (h1 : c1 * c1 + s1 * s1 = 1) (h2 : c2 * c2 + s2 * s2 = 1) :
+    ∃ m1 m2, UcsPyx.ucsRotateLocalZ s c1 s1 1 1 1 = .ok m1 ∧ UcsPyx.ucsRotateLocalZ m1 c2 s2 1 1 1 = .ok m2
+      ∧ UcsPyx.ucsRotateLocalZ s (c1 * c2 - s1 * s2) (s1 * c2 + c1 * s2) 1 1 1 = .ok m2 := by
+  obtain ⟨m1, hm1, _, x1, y1, z1, o1, r1, d1⟩ := ucs_rotate_local_z_formula s c1 s1 hs hdet h1
+  obtain ⟨m2, hm2, _, x2, y2, z2, o2, r2, d2⟩ := ucs_rotate_local_z_formula m1 c2 s2 r1 d1 h2
+  have h12 : (c1 * c2 - s1 * s2) * (c1 * c2 - s1 * s2) + (s1 * c2 + c1 * s2) * (s1 * c2 + c1 * s2) = 1 := by
+    linear_combination (c2 * c2 + s2 * s2) * h1 + h2
+  obtain ⟨m3, hm3, _, x3, y3, z3, o3, r3, d3⟩ := ucs_rotate_local_z_formula s _ _ hs hdet h12
+  refine ⟨m1, m2, hm1, hm2, ?_⟩
+  rw [hm3]
+  congr 1
+  apply m44_ext_rows m3 m2 r3.1 r2.1
+  · rw [x3, x2, x1, y1]; simp only [V3.add, V3.smul, V3.mk.injEq]; refine ⟨?_, ?_, ?_⟩ <;> ring
+  · rw [y3, y2, x1, y1]; simp only [V3.add, V3.smul, V3.mk.injEq]; refine ⟨?_, ?_, ?_⟩ <;> ring
+  · rw [z3, z2, z1]
+  · rw [o3, o2, o1]
+
+/-- `to_ocs_angle_rad(θ)` / `to_ocs_angle_deg(θ)` return the polar angle of the vector
+    `ucs_direction_to_ocs_direction(Vec3.from_angle(θ))` (the final `.angle` = atan2 is outside the model): that vector is
+    the `to_ocs` direction conversion of (cos θ, sin θ, 0) - the same function of the CURRENT state as `to_ocs` -/
+theorem ucs_to_ocs_angle_vec_spec (s : M44) (c sn r1 r2 r3 : Rat) :
+    UcsPyx.ucsToOcsAngleVec s c sn r1 r2 r3 = UcsPyx.ucsDirToOcs s (VectorPyx.v3fromAngle 1 c sn) r1 r2 r3
+    ∧ UcsPy.ucsToOcsAngleVec s c sn r1 r2 r3 = UcsPy.ucsDirToOcs s (VectorPyx.v3fromAngle 1 c sn) r1 r2 r3
+    ∧ VectorPyx.v3fromAngle 1 c sn = ⟨c, sn, 0⟩ := by
+  refine ⟨rfl, rfl, ?_⟩
+  simp [VectorPyx.v3fromAngle]
+
+/-- the four rotations return a UCS with the origin of the receiver: `UCS.rotate(axis, θ)` turns the AXES about the
+    given direction, it does not move the UCS about the WCS origin (both linkings, any roots, any axis) -/
+theorem ucs_rotate_keeps_origin (s : M44) (axis : V3) (c sn r1 r2 r3 r4 : Rat)
+    (h3 : s.m3 = 0) (h7 : s.m7 = 0) (h11 : s.m11 = 0) (n1 : r1 ≠ 0) (n2 : r2 ≠ 0) (n3 : r3 ≠ 0) (n4 : r4 ≠ 0) :
+    (∃ m, UcsPyx.ucsRotate s axis c sn r1 r2 r3 r4 = .ok m ∧ UcsPy.ucsRotate s axis c sn r1 r2 r3 r4 = .ok m ∧ m.origin = s.origin)
+    ∧ (∃ m, UcsPyx.ucsRotateLocalX s c sn r1 r2 r3 = .ok m ∧ UcsPy.ucsRotateLocalX s c sn r1 r2 r3 = .ok m ∧ m.origin = s.origin)
+    ∧ (∃ m, UcsPyx.ucsRotateLocalY s c sn r1 r2 r3 = .ok m ∧ UcsPy.ucsRotateLocalY s c sn r1 r2 r3 = .ok m ∧ m.origin = s.origin)
+    ∧ (∃ m, UcsPyx.ucsRotateLocalZ s c sn r1 r2 r3 = .ok m ∧ UcsPy.ucsRotateLocalZ s c sn r1 r2 r3 = .ok m ∧ m.origin = s.origin) := by
+  obtain ⟨⟨_, _, a1, a2⟩, ⟨_, _, b1, b2⟩, ⟨_, _, c1, c2⟩, ⟨_, _, d1, d2⟩⟩ :=
+    ucs_rotate_structure s axis c sn r1 r2 r3 r4 h3 h7 h11 n1 n2 n3 n4
+  exact ⟨⟨_, a1, by rw [a2, a1], rfl⟩, ⟨_, b1, by rw [b2, b1], rfl⟩, ⟨_, c1, by rw [c2, c1], rfl⟩, ⟨_, d1, by rw [d2, d1], rfl⟩⟩
+
+example : ∃ m, UcsPyx.ucsRotate ⟨1, 0, 0, 0, 0, 1, 0, 0, 0, 0, 1, 0, 10, 0, 0, 1⟩ ⟨0, 0, 1⟩ 0 1 1 1 1 1 = .ok m ∧ m.origin = ⟨10, 0, 0⟩
+    ∧ m.ux = ⟨0, 1, 0⟩ := ⟨_, rfl, by decide +kernel, by decide +kernel⟩
+
+/-- `UCS.points_from_wcs` is the map of `from_wcs` (the other list variants: `ucs_methods`, `ucs_to_ocs_spec`) -/
+theorem ucs_points_from_wcs_spec (s : M44) (ps : List V3) :
+    UcsPyx.ucsPointsFromWcs s ps = ps.map (UcsPyx.ucsFromWcs s) ∧ UcsPy.ucsPointsFromWcs s ps = ps.map (UcsPy.ucsFromWcs s)
+    ∧ (Orthonormal s → UcsPyx.ucsPointsFromWcs s (UcsPyx.ucsPointsToWcs s ps) = ps) := by
+  refine ⟨rfl, rfl, ?_⟩
+  intro ho
+  show (List.map (Matrix44Pyx.transform s) ps).map (UcsPyx.ucsFromWcs s) = ps
+  rw [List.map_map]
+  conv_rhs => rw [← List.map_id ps]
+  apply List.map_congr_left
+  intro p _
+  exact (ucs_roundtrip s ho p).1
+
+/-- `perspective_projection_fov(fov, aspect, near, far)` (t = tan(fov/2), v = near·t) calls
+    `perspective_projection(-v·aspect, v·aspect, bottom, top, near, far)` - it hands `bottom = -v` over as the parameter
+    `top` and `top = v` as `bottom`; the y scale of the result is therefore NEGATIVE (−1/t, the image is flipped
+    vertically against `perspective_projection(l, r, top = v, bottom = −v, …)`); both twins do the same.  Modelled as it is. -/
+theorem perspective_fov_spec (a n f t : Rat) :
+    Matrix44Pyx.perspectiveFov a n f t = Matrix44Pyx.perspective (-(n * t) * a) (n * t * a) (-(n * t)) (n * t) n f
+    ∧ Matrix44Py.perspectiveFov = Matrix44Pyx.perspectiveFov
+    ∧ (n * t * a ≠ 0 → f - n ≠ 0 → ∃ m, Matrix44Pyx.perspectiveFov a n f t = .ok m ∧ m.m0 = 1 / (t * a) ∧ m.m5 = -(1 / t)) := by
+  refine ⟨rfl, rfl, ?_⟩
+  intro h1 h2
+  have hn : n ≠ 0 := fun h => h1 (by rw [h]; ring)
+  have ht : t ≠ 0 := fun h => h1 (by rw [h]; ring)
+  have ha : a ≠ 0 := fun h => h1 (by rw [h]; ring)
+  have c1 : ¬ (n * t * a - (-(n * t)) * a = 0) := by
+    intro h; apply h1; linarith
+  have c2 : ¬ ((-(n * t)) - n * t = 0) := by
+    intro h; apply mul_ne_zero hn ht; linarith
+  refine ⟨_, by simp only [Matrix44Pyx.perspectiveFov, if_neg c1, if_neg c2, if_neg h2]; rfl, ?_, ?_⟩
+  · show 2 * n / (n * t * a - -(n * t) * a) = 1 / (t * a)
+    field_simp; ring
+  · show 2 * n / (-(n * t) - n * t) = -(1 / t)
+    field_simp; ring
+
+/-- `rotate_local_x(θ)` / `rotate_local_y(θ)` of a right-handed cartesian UCS in closed form:
+    x: uy' = cos θ·uy + sin θ·uz, uz' = −sin θ·uy + cos θ·uz;  y: uz' = cos θ·uz + sin θ·ux, ux' = cos θ·ux − sin θ·uz;
+    own axis and origin kept, result right-handed cartesian -/
+theorem ucs_rotate_local_xy_formula (s : M44) (c sn : Rat) (hs : IsRigid s) (hdet : M44.det s = 1)
+    (hcs : c * c + sn * sn = 1) :
+    (∃ m, UcsPyx.ucsRotateLocalX s c sn 1 1 1 = .ok m ∧ m.ux = s.ux
+      ∧ m.uy = V3.add (V3.smul c s.uy) (V3.smul sn s.uz) ∧ m.uz = V3.add (V3.smul (-sn) s.uy) (V3.smul c s.uz)
+      ∧ m.origin = s.origin ∧ IsRigid m ∧ M44.det m = 1)
+    ∧ (∃ m, UcsPyx.ucsRotateLocalY s c sn 1 1 1 = .ok m ∧ m.uy = s.uy
+      ∧ m.uz = V3.add (V3.smul c s.uz) (V3.smul sn s.ux) ∧ m.ux = V3.add (V3.smul c s.ux) (V3.smul (-sn) s.uz)
+      ∧ m.origin = s.origin ∧ IsRigid m ∧ M44.det m = 1) := by
+  have one : (1 : Rat) ≠ 0 := one_ne_zero
+  have hrh : V3.cross s.ux s.uy = s.uz := by
+    rw [(rigid_handedness s hs).1, hdet]; cases s; simp [V3.smul, M44.uz]
+  obtain ⟨⟨hxx', R, m, hR, _, _, hm, _, ho, hux, huy, huz, hrig, hd⟩,
+          ⟨hyy', R2, m2, hR2, _, _, hm2, _, ho2, huy2, hux2, huz2, hrig2, hd2⟩⟩ := ucs_rotate_local_xy_cartesian s c sn hs hcs
+  obtain ⟨R', hR', _, _, _, _, hrod⟩ := axis_rotate_spec s.ux c sn 1 hcs (by rw [hxx']; ring) one
+  rw [hR] at hR'; cases hR'
+  obtain ⟨R2', hR2', _, _, _, _, hrod2⟩ := axis_rotate_spec s.uy c sn 1 hcs (by rw [hyy']; ring) one
+  rw [hR2] at hR2'; cases hR2'
+  obtain ⟨⟨h3, h7, h11, h15⟩, hxx, hyy, hzz, hxy, hxz, hyz⟩ := hs
+  have z0 : ∀ (Q : M44) (ax : V3), Matrix44Pyx.axisRotate ax c sn 1 = .ok Q → Q.m12 = 0 ∧ Q.m13 = 0 ∧ Q.m14 = 0 := by
+    intro Q ax hQ
+    simp only [Matrix44Pyx.axisRotate, if_neg one, Except.ok.injEq] at hQ
+    rw [← hQ]; exact ⟨rfl, rfl, rfl⟩
+  have rows : ∀ Q : M44, Q.m12 = 0 ∧ Q.m13 = 0 ∧ Q.m14 = 0 →
+      (M44.mul s Q).ux = Matrix44Pyx.transform Q s.ux ∧ (M44.mul s Q).uy = Matrix44Pyx.transform Q s.uy
+      ∧ (M44.mul s Q).uz = Matrix44Pyx.transform Q s.uz := by
+    intro Q h0
+    refine ⟨?_, ?_, ?_⟩ <;>
+    · simp only [M44.mul, M44.ux, M44.uy, M44.uz, Matrix44Pyx.transform, V3.mk.injEq, h3, h7, h11, h0.1, h0.2.1, h0.2.2]
+      refine ⟨?_, ?_, ?_⟩ <;> ring
+  obtain ⟨_, ry, rz⟩ := rows R (z0 R _ hR)
+  obtain ⟨rx2, _, rz2⟩ := rows R2 (z0 R2 _ hR2)
+  simp only [V3.dot, V3.cross, M44.ux, M44.uy, M44.uz, V3.mk.injEq] at hxx hyy hzz hxy hxz hyz hrh
+  obtain ⟨r8, r9, r10⟩ := hrh
+  constructor
+  · refine ⟨m, hm, hux, ?_, ?_, ho, hrig, by rw [hd, hdet]⟩
+    · rw [huy, ry, hrod]
+      simp only [V3.add, V3.smul, V3.cross, V3.dot, M44.ux, M44.uy, M44.uz, V3.mk.injEq, ← r8, ← r9, ← r10]
+      refine ⟨?_, ?_, ?_⟩
+      · linear_combination ((1 - c) * s.m0) * hxy
+      · linear_combination ((1 - c) * s.m1) * hxy
+      · linear_combination ((1 - c) * s.m2) * hxy
+    · rw [huz, rz, hrod]
+      simp only [V3.add, V3.smul, V3.cross, V3.dot, M44.ux, M44.uy, M44.uz, V3.mk.injEq, ← r8, ← r9, ← r10]
+      refine ⟨?_, ?_, ?_⟩
+      · linear_combination (sn * s.m0) * hxy - (sn * s.m4) * hxx
+      · linear_combination (sn * s.m1) * hxy - (sn * s.m5) * hxx
+      · linear_combination (sn * s.m2) * hxy - (sn * s.m6) * hxx
+  · refine ⟨m2, hm2, huy2, ?_, ?_, ho2, hrig2, by rw [hd2, hdet]⟩
+    · rw [huz2, rz2, hrod2]
+      simp only [V3.add, V3.smul, V3.cross, V3.dot, M44.ux, M44.uy, M44.uz, V3.mk.injEq, ← r8, ← r9, ← r10]
+      refine ⟨?_, ?_, ?_⟩
+      · linear_combination (sn * s.m0) * hyy - (sn * s.m4) * hxy
+      · linear_combination (sn * s.m1) * hyy - (sn * s.m5) * hxy
+      · linear_combination (sn * s.m2) * hyy - (sn * s.m6) * hxy
+    · rw [hux2, rx2, hrod2]
+      simp only [V3.add, V3.smul, V3.cross, V3.dot, M44.ux, M44.uy, M44.uz, V3.mk.injEq, ← r8, ← r9, ← r10]
+      refine ⟨?_, ?_, ?_⟩
+      · linear_combination ((1 - c) * s.m4) * hxy
+      · linear_combination ((1 - c) * s.m5) * hxy
+      · linear_combination ((1 - c) * s.m6) * hxy
+
+/-- COMPOSITION of the other two local rotations: `rotate_local_x(α).rotate_local_x(β)` = `rotate_local_x(α+β)`, same for y -/
+theorem ucs_rotate_local_xy_compose (s : M44) (c1 s1 c2 s2 : Rat) (hs : IsRigid s) (hdet : M44.det s = 1)
+    (h1 : c1 * c1 + s1 * s1 = 1) (h2 : c2 * c2 + s2 * s2 = 1) :
+    (∃ m1 m2, UcsPyx.ucsRotateLocalX s c1 s1 1 1 1 = .ok m1 ∧ UcsPyx.ucsRotateLocalX m1 c2 s2 1 1 1 = .ok m2
+      ∧ UcsPyx.ucsRotateLocalX s (c1 * c2 - s1 * s2) (s1 * c2 + c1 * s2) 1 1 1 = .ok m2)
+    ∧ (∃ m1 m2, UcsPyx.ucsRotateLocalY s c1 s1 1 1 1 = .ok m1 ∧ UcsPyx.ucsRotateLocalY m1 c2 s2 1 1 1 = .ok m2
+      ∧ UcsPyx.ucsRotateLocalY s (c1 * c2 - s1 * s2) (s1 * c2 + c1 * s2) 1 1 1 = .ok m2) := by
+  have h12 : (c1 * c2 - s1 * s2) * (c1 * c2 - s1 * s2) + (s1 * c2 + c1 * s2) * (s1 * c2 + c1 * s2) = 1 := by
+    linear_combination (c2 * c2 + s2 * s2) * h1 + h2
+  constructor
+  · obtain ⟨⟨m1, hm1, x1, y1, z1, o1, r1, d1⟩, _⟩ := ucs_rotate_local_xy_formula s c1 s1 hs hdet h1
+    obtain ⟨⟨m2, hm2, x2, y2, z2, o2, r2, d2⟩, _⟩ := ucs_rotate_local_xy_formula m1 c2 s2 r1 d1 h2
+    obtain ⟨⟨m3, hm3, x3, y3, z3, o3, r3, d3⟩, _⟩ := ucs_rotate_local_xy_formula s _ _ hs hdet h12
+    refine ⟨m1, m2, hm1, hm2, ?_⟩
+    rw [hm3]; congr 1
+    apply m44_ext_rows m3 m2 r3.1 r2.1
+    · rw [x3, x2, x1]
+    · rw [y3, y2, y1, z1]; simp only [V3.add, V3.smul, V3.mk.injEq]; refine ⟨?_, ?_, ?_⟩ <;> ring
+    · rw [z3, z2, y1, z1]; simp only [V3.add, V3.smul, V3.mk.injEq]; refine ⟨?_, ?_, ?_⟩ <;> ring
+    · rw [o3, o2, o1]
+  · obtain ⟨_, ⟨m1, hm1, y1, z1, x1, o1, r1, d1⟩⟩ := ucs_rotate_local_xy_formula s c1 s1 hs hdet h1
+    obtain ⟨_, ⟨m2, hm2, y2, z2, x2, o2, r2, d2⟩⟩ := ucs_rotate_local_xy_formula m1 c2 s2 r1 d1 h2
+    obtain ⟨_, ⟨m3, hm3, y3, z3, x3, o3, r3, d3⟩⟩ := ucs_rotate_local_xy_formula s _ _ hs hdet h12
+    refine ⟨m1, m2, hm1, hm2, ?_⟩
+    rw [hm3]; congr 1
+    apply m44_ext_rows m3 m2 r3.1 r2.1
+    · rw [x3, x2, x1, z1]; simp only [V3.add, V3.smul, V3.mk.injEq]; refine ⟨?_, ?_, ?_⟩ <;> ring
+    · rw [y3, y2, y1]
+    · rw [z3, z2, x1, z1]; simp only [V3.add, V3.smul, V3.mk.injEq]; refine ⟨?_, ?_, ?_⟩ <;> ring
+    · rw [o3, o2, o1]
+
+/-- 2-D `angle_between` up to acos: the same clamp logic, both twins -/
+theorem angle_between_v2_spec (p q : V2) (r1 r2 : Rat) (n1 : r1 ≠ 0) (n2 : r2 ≠ 0) :
+    ∃ c, VectorPyx.v2cosBetween p q r1 r2 = .ok c ∧ VectorPy.v2cosBetween p q r1 r2 = .ok c ∧ -1 ≤ c ∧ c ≤ 1
+      ∧ (¬ (VectorPyx.v2dot p q * ((1 / r1) * (1 / r2)) < -1) → ¬ (1 < VectorPyx.v2dot p q * ((1 / r1) * (1 / r2))) →
+          c = VectorPyx.v2dot p q * ((1 / r1) * (1 / r2))) := by
+  have hpy : VectorPy.v2cosBetween p q r1 r2 = VectorPyx.v2cosBetween p q r1 r2 := rfl
+  rw [hpy]
+  simp only [VectorPyx.v2cosBetween, if_neg n1, if_neg n2]
+  have hx : p.x * (1 / r1) * (q.x * (1 / r2)) + p.y * (1 / r1) * (q.y * (1 / r2)) = VectorPyx.v2dot p q * ((1 / r1) * (1 / r2)) := by
+    simp only [VectorPyx.v2dot]; ring
+  rw [hx]
+  generalize VectorPyx.v2dot p q * ((1 / r1) * (1 / r2)) = x
+  by_cases c1 : x < -1
+  · rw [if_pos c1]; exact ⟨-1, rfl, rfl, le_refl _, by norm_num, fun h _ => absurd c1 h⟩
+  · rw [if_neg c1]
+    by_cases c2 : 1 < x
+    · rw [if_pos c2]; exact ⟨1, rfl, rfl, by norm_num, le_refl _, fun _ h => absurd c2 h⟩
+    · rw [if_neg c2]; exact ⟨x, rfl, rfl, le_of_not_gt c1, le_of_not_gt c2, fun _ _ => rfl⟩
+
 end EzdxfVerif.Props.C11
